@@ -147,6 +147,7 @@ Proof.
   - destruct (assoc name (cf_types (m_cfg m))) as [g|]; [|reflexivity].
     destruct (nassoc index g); [reflexivity|].
     destruct (tokenise_patterns LX ck (m_cfg m) (s "en") parse); reflexivity.
+  - destruct (set_date_rule LX ck (m_cfg m) lang patterns); reflexivity.
 Qed.
 
 Theorem sessions_isolated_history ck b : forall ops m,
